@@ -517,6 +517,7 @@ PrinterPtr Printer::create() noexcept
 
 std::string Printer::printModel(const ModelPtr &model, bool autoIds)
 {
+    pFunc()->removeAllIssues();
     if (model == nullptr) {
         return "";
     }
